@@ -36,15 +36,24 @@ def main():
         M = make(rng)
         if rng.random() < 0.5:
             py_seed_random(3); py_simulate_model(T, Model=M, stochastic=True)
+        explicit = it % 2 == 0
+        if not explicit:      # edited after its last initialisation and copied in that state; nobody calls py_initialize() by hand
+            M.create_reaction(['B'], ['A', 'A'], 'massaction', {'k': 'k1'})
         copies = [pickle.loads(pickle.dumps(M)), copy.deepcopy(M), pickle.loads(pickle.dumps(copy.deepcopy(M)))]
-        M.py_initialize()
+        if explicit:
+            M.py_initialize()
+        else:
+            py_simulate_model(T, Model=M, stochastic=False)
         ref_def = definition(M)
         outs = {}
         for mode in (dict(stochastic=True), dict(stochastic=True, delay=True), dict(stochastic=False)):
             py_seed_random(77)
             outs[str(mode)] = py_simulate_model(T, Model=M, return_dataframe=False, **mode).py_get_result()
         for k, Cp in enumerate(copies):
-            Cp.py_initialize()
+            if explicit:
+                Cp.py_initialize()
+            else:
+                py_simulate_model(T, Model=Cp, stochastic=False)
             n += 1
             if definition(Cp) != ref_def:
                 return dict(reproduced=True, call='copy route %d: definition' % k, observed=str(definition(Cp))[:300], expected=str(ref_def)[:300])
